@@ -271,6 +271,65 @@ fn main() {
         loaded.push(Loaded { cache });
     }
 
+    // ---- conversion is per amount: the order in which the lines come cannot matter.  Four USD/EUR lines in the SAME
+    // calendar month of different years (and different months of one year), every one of the 24 line orders, against the
+    // first order and against the GBP twin converted here from the bundled XML text
+    if let Some(bundled) = configs.iter().position(|c| c.is_empty()).and_then(|i| loaded.get(i)).and_then(|l| l.cache.as_ref().ok()) {
+        let d = |y, m, dd| NaiveDate::from_ymd_opt(y, m, dd).unwrap_or_default();
+        let usd = |x: i64| CurrencyAmount::new(Decimal::new(x, 2), Currency::from_code("USD").unwrap_or(Currency::GBP));
+        let eur = |x: i64| CurrencyAmount::new(Decimal::new(x, 2), Currency::from_code("EUR").unwrap_or(Currency::GBP));
+        let lines = vec![
+            Transaction { date: d(2023, 2, 10), ticker: "AAA".into(), operation: Operation::Buy { amount: Decimal::from(10), price: usd(812), fees: eur(150) } },
+            Transaction { date: d(2024, 2, 12), ticker: "AAA".into(), operation: Operation::Buy { amount: Decimal::from(4), price: usd(955), fees: usd(100) } },
+            Transaction { date: d(2024, 3, 1), ticker: "AAA".into(), operation: Operation::Sell { amount: Decimal::from(6), price: usd(1234), fees: eur(75) } },
+            Transaction { date: d(2025, 2, 3), ticker: "AAA".into(), operation: Operation::Sell { amount: Decimal::from(5), price: eur(1100), fees: usd(60) } },
+        ];
+        let cfgp = full_config();
+        let mut first: Option<(Vec<cgt_core::TaxYearSummary>, Vec<cgt_core::Section104Holding>)> = None;
+        let mut perm = vec![0usize, 1, 2, 3];
+        let mut all: Vec<Vec<usize>> = Vec::new();
+        fn heap(k: usize, a: &mut Vec<usize>, out: &mut Vec<Vec<usize>>) { if k == 1 { out.push(a.clone()); return; } for i in 0..k { heap(k - 1, a, out); if k % 2 == 0 { a.swap(i, k - 1); } else { a.swap(0, k - 1); } } }
+        heap(4, &mut perm, &mut all);
+        for p in &all {
+            let txs: Vec<Transaction> = p.iter().map(|i| lines[*i].clone()).collect();
+            let t2 = txs.clone();
+            let c2 = cfgp.clone();
+            cnt.inc("executions");
+            cnt.inc("fx_line_orders");
+            match guarded(|| calculate(&t2, None, Some(bundled), &c2).map_err(|e| e.to_string())) {
+                Ok(Ok(rep)) => {
+                    let cur = (rep.tax_years.clone(), rep.holdings.clone());
+                    match &first {
+                        None => first = Some(cur),
+                        Some(f0) => if *f0 != cur {
+                            for pr in ["C06", "C08"] {
+                                findings.push(Finding { prop: pr.into(), kind: "fx_line_order".into(), case: 0, detail: format!("the line order {:?} of a foreign-currency ledger changes the report (amounts of one currency in the same calendar month of different years)", p), input: to_dsl(&txs), data: json!({}) });
+                            }
+                            break;
+                        }
+                    }
+                }
+                other => { findings.push(Finding { prop: "C08".into(), kind: "convertible_refused".into(), case: 0, detail: format!("the order probe ledger is refused: {:?}", other.map(|r| r.map(|_| ()))), input: to_dsl(&txs), data: json!({}) }); break; }
+            }
+        }
+        // ... and the first order against its GBP twin (each amount divided by the bundled rate of its own currency and month)
+        let rate = |cur: &str, y: i32, m: u32| bundled_month(&rates, y, m).and_then(|v| v.into_iter().find(|(c, _)| c == cur).map(|x| x.1));
+        let conv = |a: &CurrencyAmount, dt: NaiveDate| -> Option<CurrencyAmount> { use chrono::Datelike; Some(CurrencyAmount::new(a.amount / rate(a.code(), dt.year(), dt.month())?, Currency::GBP)) };
+        let twin: Option<Vec<Transaction>> = lines.iter().map(|t| Some(Transaction { date: t.date, ticker: t.ticker.clone(), operation: match &t.operation {
+            Operation::Buy { amount, price, fees } => Operation::Buy { amount: *amount, price: conv(price, t.date)?, fees: conv(fees, t.date)? },
+            Operation::Sell { amount, price, fees } => Operation::Sell { amount: *amount, price: conv(price, t.date)?, fees: conv(fees, t.date)? },
+            o => o.clone(),
+        } })).collect();
+        if let (Some(twin), Some(f0)) = (twin, &first) {
+            let c3 = cfgp.clone();
+            if let Ok(Ok(rep2)) = guarded(move || calculate(&twin, None, None, &c3).map_err(|e| e.to_string())) {
+                if (rep2.tax_years.clone(), rep2.holdings.clone()) != *f0 {
+                    findings.push(Finding { prop: "C08".into(), kind: "twin_differs".into(), case: 0, detail: "the order probe ledger and its GBP twin give different reports".into(), input: to_dsl(&lines), data: json!({}) });
+                }
+            }
+        }
+    }
+
     // ---- convert phase, every behaviour through the library
     let cfg = full_config();
     let rate_of = |rec: &FxRec, i: usize| -> Option<Decimal> {
